@@ -8,13 +8,13 @@ checks = {
     text="Every input of the enumerated spaces (all 2- and 3-character neighbourhoods of the drawing alphabets, all short rows over the quote/escape alphabet, all short legend-grammar and brace strings, every Unicode scalar in 3 contexts, every single-cell corruption of the catalogue circles, bullets/arrows on every slope, a corpus x extreme scales x switches x all 5 entry points) is run; any panic, abort, overflow or stall is a violation with a replay file. Growth families bound the time ratio between sizes n and 2n.",
     note=NOTE + " The polynomial-time clause is decided as a bounded growth ratio on listed families, not as a complexity proof."),
  "C02": dict(tech="bounded-exhaustive enumeration of characters/strings x sinks x switches on the real library; strict XML parser as oracle, itself model-checked against expat over the whole character domain; text round-trip oracle",
-    text="Every scalar of the tier's set and every short string over a markup alphabet is pushed through each of six sinks; every output must be well-formed (in-house strict parser and expat), have the SVG root, and give the text back.",
+    text="Every scalar of the tier's set and every short string over a markup alphabet is pushed through each of six sinks; every output must be well-formed (in-house strict parser and expat), have the SVG root, and give the text back. Plus every string up to length 5 over {], >, U+0001, U+FFFE, x} in three sinks (a CDATA end must never reach character data).",
     note="Settings strings are outside the property. Round trip for plain sinks is sub/super-sequence based because drawing characters may legitimately become geometry."),
  "C03": dict(tech="bounded-exhaustive enumeration of all small grids on the real library; independent reference renderer; exact integer stroke-set comparison",
-    text="All grids over {space,-,|,+} up to 3x3/2x4/4x2/1x8/8x1 (complete) and slices (quick) or all (thorough) of 3x4/4x3/2x6/6x2, grids with labels, and boxes with 1-2 corrupted cells are rendered and compared with an independent per-character reference renderer as exact sets of unit stroke pieces and text cells.",
+    text="All grids over {space,-,|,+} up to 3x3/2x4/4x2/1x8/8x1 (complete) and slices (quick) or all (thorough) of 3x4/4x3/2x6/6x2, grids with labels, and boxes with 1-2 corrupted cells are rendered and compared with an independent per-character reference renderer as exact sets of unit stroke pieces and text cells. Plus two collinear strokes around a one-cell gap with the first up to 200 (260) cells long.",
     note=NOTE),
  "C04": dict(tech="bounded-exhaustive enumeration of all short rows over a mixed-width alphabet on the real library; reference model of display columns",
-    text="All rows up to length 5 (7) over ASCII/2-byte/double-width/line characters, alone, forced into one span, in three-row documents and inside a box: every label character must be shown exactly once, in its own display cell.",
+    text="All rows up to length 5 (7) over ASCII/2-byte/double-width/line characters, alone, forced into one span, in three-row documents and inside a box: every label character must be shown exactly once, in its own display cell. Plus every printable scalar U+00A1..U+3100 (and block ends above) followed by a label.",
     note=NOTE),
  "C05": dict(tech="bounded-exhaustive enumeration of box families and small grids on the real library; exact geometric prediction (completeness) and border-character oracle (soundness)",
     text="Every box of 9 styles x sizes x offsets x interiors x side patterns must be exactly one predicted rect; every rect emitted for any grid of the soundness scopes must lie on border characters.",
@@ -26,7 +26,7 @@ checks = {
     text="26 marker-carrying payloads and all strings up to length 3 (4) over 13 markup characters in 5 channels x 4 contexts: the parsed output may contain only svgbob's vocabulary, nesting, attribute grammars; markers only in character data or class tokens.",
     note=NOTE),
  "C09": dict(tech="bounded-exhaustive enumeration of runs and small grids on the real library; exact rational geometry oracle",
-    text="Runs of 17 line characters x lengths up to 400 x offsets and all mixed dashed/solid runs must be one line (two for double lines); no output of the grid scopes may contain two unmarked collinear touching lines.",
+    text="Runs of 17 line characters x lengths up to 400 x offsets and all mixed dashed/solid runs must be one line (two for double lines); no output of the grid scopes may contain two unmarked collinear touching lines. Plus runs with a perpendicular stub on every one of their cells (the run must still be covered by one line).",
     note=NOTE),
  "C10": dict(tech="bounded-exhaustive enumeration of component pairs/triples x layouts x gaps on the real library; metamorphic oracle (union of separately rendered parts)",
     text="All ordered pairs of ~50 components (and triples of a subset, and all pairs of 2x2 grids over 5 characters) side by side / stacked with gaps 1..3 must render as the shifted union of their separate renderings.",
@@ -53,16 +53,16 @@ checks = {
     text="All documents of up to 2 (3) lines from 12 templates x {LF,CRLF} x trailing blank per line x 0..5 trailing blank lines render like the plain LF document.",
     note=NOTE),
  "C07": dict(engine="svgmc7", tech="explicit enumeration of call histories (fresh processes), of corpus orders across 16 processes, of all n! hash-iteration orders at an instrumented seam, and stateless schedule exploration (iterative preemption bounding) of the real library under an owned scheduler",
-    text="(a) all histories up to length 3 (4) over a 12-conversion alphabet, each in a fresh process with the real once_cell tables; (b) a 15k (117k) input corpus converted in 16 different orders by 16 fresh processes and compared output by output; (c) all n! iteration orders of the property map for all sparse 3x3 grids, structured orders with table rebuild for larger drawings; (d) all interleavings of 2-3 threads from the uninitialised table state with at most 2 (3) preemptions at instrumented points; one schedule replayed twice.",
+    text="(a) all histories up to length 3 (4) over a 12-conversion alphabet, each in a fresh process with the real once_cell tables; (b) a 15k (117k) input corpus converted in 16 different orders by 16 fresh processes and compared output by output; (c) all n! iteration orders of the property map for all sparse 3x3 grids, structured orders with table rebuild for larger drawings; (d) all interleavings of 2-3 threads from the uninitialised table state with at most 2 (3) preemptions at instrumented points; one schedule replayed twice. Schedule harnesses include two threads converting one tagged drawing at different scales, with scheduling points inside the node-building stage.",
     note="Schedules are explored at inserted points and lazy-table events (feature `verif`), sequentially consistent; the hash seed of containers other than the instrumented one is covered only by process/repetition sampling (can only add violations)."),
  "C19": dict(engine="cli_explorer", tech="bounded-exhaustive enumeration of option subsets x output modes and pre-states x input modes x inputs, error cases and build directories against the real CLI binary; differential oracle (library document via the engine)",
     text="Every subset of the 7 value options x stdout / -o (target absent, empty, longer) / --output x file / stdin / inline x inputs; error cases x input modes; build over every set of up to 3 (4) files x output modes: bytes, exit status, stderr, written files compared with the library and the per-case model.",
     note="Black-box runs of the release binary built from the working tree; expected documents from the feature-off engine."),
  "C20": dict(engine="server_explorer", tech="bounded-exhaustive enumeration of request sequences and of client-event interleavings against the real server binary; per-request reference model + library differential",
-    text="All request sequences up to length 2 (3) over 13 request kinds on fresh servers, all length-3 (4) sequences chained on long-lived servers and concatenated on one server; all 252 interleavings of the events of two clients for 9 kind pairs (thorough: 34650 orders of three clients for 3 triples); every response compared with the model.",
+    text="All request sequences up to length 2 (3) over 13 request kinds on fresh servers, all length-3 (4) sequences chained on long-lived servers and concatenated on one server; all 252 interleavings of the events of two clients for 9 kind pairs (thorough: 34650 orders of three clients for 3 triples); every response compared with the model. Plus all ordered pairs and triples of 9 near-equal bodies (edge blanks, line ends, case) on one long-lived server.",
     note="The server's internal scheduling is not controlled: what is enumerated completely is the order of client-visible events. Bodies up to 20 kB (quick 6 kB) plus an exactly-2-MiB blank-padded body and the 413 probe."),
  "C18": dict(tech="bounded-exhaustive enumeration of documents x settings x entry points on the real library; relational oracle between runs",
-    text="Corpus x all 8 switch sets, one-factor and all-pairs cosmetic settings, override sizes, five entry points: only the named element / style text / root size may change; entry points agree.",
+    text="Corpus x all 8 switch sets, one-factor and all-pairs cosmetic settings, override sizes, five entry points: only the named element / style text / root size may change; entry points agree. Plus every ordered pair of 11 one-field settings variants on 4 drawings (history independence of the style sheet).",
     note=NOTE),
 }
 pending = {}
@@ -74,7 +74,7 @@ m = {
    "guard": "cargo feature `verif` of crate svgbob",
    "enable": "engine package svgmc7 depends on svgbob with features=[\"verif\"]; all other checks use the feature-off build",
    "baseline_off_cmd": BASE,
-   "source_commits": ["ec5d604"],
+   "source_commits": ["ec5d604", "a244a97"],
    "add_only": True,
  },
  "engines": [
